@@ -12,6 +12,8 @@ P = 'C12'
 def run(model, rep, tier):
     ctx = Ctx(model)
     r1_summary_roles(ctx, rep)
+    from . import c02
+    c02.result_transfers(ctx, rep, 'C12.R1')
     r2_lists(ctx, rep)
     r3_accumulators(ctx, rep)
     rep.rule('C12.R4', 'testsRun grows by exactly countTestCases() per test on every protocol word '
